@@ -103,6 +103,11 @@ def h_prefix_batch(eng, items):
         # second use: the prefixed unit is now registered in the unit table
         r2 = ureg.Quantity(x, text).to_root_units()
         eng.prove(Eq(r2.magnitude, r.magnitude), f"prefix-second-use:{text}")
+        # the registry-level factor API (answers from the registry's own tables)
+        f, ru = ureg.get_root_units(text)
+        eng.prove(Eq(f, pval * info.num), f"prefix-get_root_units:{text}")
+        fb, bu = ureg.get_base_units(text)
+        eng.prove(Eq(ureg.Quantity(fb, bu).to_root_units().magnitude, pval * info.num), f"prefix-get_base_units:{text}")
 
 
 def h_pair(eng, u, v, w):
@@ -152,6 +157,20 @@ def h_pair(eng, u, v, w):
     for sn, mk in sources.items():
         qs = mk()
         eng.prove(Eq(qs.to(v).magnitude, want), f"source-as-{sn}")
+    # registry.convert on arrays: inplace=True rewrites the given array, inplace=False leaves it
+    import numpy as np
+
+    arr = np.array([x, y], dtype=object)
+    out = ureg.convert(arr, u, v)
+    eng.prove(And(Eq(out[0], want), Eq(out[1], y * iu.num / iv.num)), "convert-array")
+    eng.prove(And(Eq(arr[0], x), Eq(arr[1], y)) and out is not arr, "convert-array-leaves-input")
+    out = ureg.convert(arr, u, v, inplace=True)
+    eng.prove(And(Eq(out[0], want), Eq(out[1], y * iu.num / iv.num)), "convert-array-inplace")
+    eng.prove(out is arr, "convert-array-inplace-same-buffer")
+    qa = ureg.Quantity(np.array([x, y], dtype=object), u)
+    buf = qa.magnitude
+    qa.ito(v)
+    eng.prove(And(Eq(qa.magnitude[0], want), qa.magnitude is buf, qa.units == ureg.Unit(v)), "ito-array-in-place")
     # Unit.from_ / m_from: a quantity expressed in this unit; bare numbers are taken in this unit
     V = ureg.Unit(v)
     fr = V.from_(q)
@@ -306,7 +325,8 @@ def cases(tier, seed):
     for i in range(0, len(names), 16):
         chunk = names[i : i + 16]
         out.append(Case("H02.a", f"{i:04d}:{chunk[0]}", M, "h_root_batch", {"names": chunk}, validate=1))
-    # H02.b prefix x unit
+    # H02.b prefix x unit (the prefixed names that exist in the unit table from the start, i.e.
+    # those mentioned by @system blocks, are always included)
     mult = sorted(n for n, i in inf.items() if i.kind in ("base", "mult", "dimensionless") and not i.inexact)
     spell_by_canon = {}
     for s, c in d.spellings.items():
@@ -332,6 +352,10 @@ def cases(tier, seed):
                 items.append((p, u, s))
     if not big:
         items = rnd.sample(items, min(len(items), 900))
+    # always: the prefixed names that the bundled systems mention (they sit in the unit table from
+    # the start) and a few everyday ones
+    always = [("kilo", "gram", ""), ("centi", "meter", ""), ("milli", "gram", ""), ("kilo", "meter", ""), ("k", "g", ""), ("c", "m", ""), ("milli", "second", "s"), ("micro", "second", ""), ("kilo", "grams", "")]
+    items = [it for it in always if it[1] in d.spellings and it[0] in d.prefixes and it not in items] + items
     for i in range(0, len(items), 12):
         chunk = items[i : i + 12]
         out.append(Case("H02.b", f"{i:05d}:{''.join(chunk[0])}", M, "h_prefix_batch", {"items": chunk}, validate=1))
